@@ -477,6 +477,40 @@ def r1410(ctx, fx):
         ctx.fail_closed(rid, "fewer than 10 request handler bodies found (%d)" % n)
 
 
+# handlers whose answer carries ranges but names no document: the ranges are read as positions in the requested document
+RANGES_WITHOUT_DOCUMENT = ("CodeLensRequestHandler", "DocumentHighlightRequestHandler", "SemanticTokensFullRequestHandler", "DocumentSymbolRequestHandler")
+
+
+def r1411(ctx, fx):
+    rid = ctx.rule("R14.11", "answers that carry ranges but no document (code lenses, highlights, semantic tokens, document symbols) are confined to the requested "
+                   "document — sibling handlers agree on one of two idioms: the answer is computed from the tokens of that file alone "
+                   "(ParseTree::try_get_file(<requested path>)), or every location is compared with the requested document (its uri / File::name) before "
+                   "its range is used. A handler with neither reports positions of imported files as positions in the requested one")
+    n = 0
+    for f in sorted(fx.all_fns("mos"), key=lambda f: f.path):
+        if not (f.d.get("impl_trait") == "mos::lsp::traits::RequestHandler" and f.path.endswith("::handle") and f.d.get("hir")):
+            continue
+        who = (f.d.get("impl_self") or "").rsplit("::", 1)[-1]
+        if who not in RANGES_WITHOUT_DOCUMENT:
+            continue
+        n += 1
+        body = f.hir["body"]
+        own_tokens = any(True for _ in lib.hir_calls(body, "ParseTree::try_get_file"))
+        compares = False
+        for x in lib.hwalk(body):
+            if x.get("k") == "binary" and x.get("op") in ("Eq", "Ne"):
+                d = repr(lib.hdesc(x))
+                if ("File::name" in d or "'uri'" in d) and ("uri" in d or "path" in d):
+                    compares = True
+        k = "%s|confined-to-document" % who
+        ctx.inst(rid, k, sample={"handler": who, "computed_from_the_file's_tokens": own_tokens, "compares_location_with_document": compares})
+        if not (own_tokens or compares):
+            ctx.finding(rid, k, "%s answers with ranges of locations it never compares with the requested document: what lies in an imported file is reported at "
+                        "the same line/column of the requested file (ranges outside the document; a test offered once per importing file)" % who, f.where)
+    if n < len(RANGES_WITHOUT_DOCUMENT):
+        ctx.fail_closed(rid, "%d of the %d handlers with range-only answers found" % (n, len(RANGES_WITHOUT_DOCUMENT)))
+
+
 def run(ctx):
     fx = ctx.facts
     cg = lib.CallGraph(fx)
@@ -484,6 +518,7 @@ def run(ctx):
     r148(ctx, fx)
     r149(ctx, fx)
     r1410(ctx, fx)
+    r1411(ctx, fx)
     r146(ctx, fx)
     r142(ctx, fx)
     r143(ctx, fx)
